@@ -391,7 +391,7 @@ func genC04(t *rapid.T) c04Case {
 		default:
 			n = uniformInt(t, 7*1281, 60000, "n")
 		}
-		q := gen.DrawSeq(t, n, []string{"uniform", "uniform", "uniform", "biased", "constant", "periodic", "markov", "alternating", "sparse"})
+		q := gen.DrawSeq(t, n, []string{"uniform", "uniform", "uniform", "biased", "constant", "periodic", "markov", "alternating", "sparse", "prefixconst", "prefixconst", "nearflat"})
 		c.Seq = &q
 		if rapid.IntRange(0, 2).Draw(t, "plant") == 0 {
 			// the statistic is a sum of log2(distance): plant one pattern at chosen block numbers so that chosen distances occur
@@ -402,7 +402,7 @@ func genC04(t *rapid.T) c04Case {
 			for k := rapid.IntRange(1, 6).Draw(t, "plants"); k > 0; k-- {
 				gap := rapid.SampledFrom([]int{1, 2, 127, 128, 129, 255, 256, 1023, 1024, 1025, 1279, 1280, 1281, 2047, 2048, 4095, 4096, 4097, 8191, 8192}).Draw(t, "gap")
 				if rapid.IntRange(0, 3).Draw(t, "anygap") == 0 {
-					gap = rapid.IntRange(1, max(1, nb)).Draw(t, "gap")
+					gap = uniformInt(t, 1, max(1, nb), "gap")
 				}
 				pos += gap
 				if pos > nb {
